@@ -449,7 +449,8 @@ def pySliceAny (n : Nat) (a b : Option Int) (step : Option Int) : Option (List N
 /-- What `_locate_period_in_span` returns. -/
 inductive Loc where
   | pos (i : Nat)          -- a Python int
-  | nonIntPos (i : Nat)    -- NumPy fallback: `np.int64` (indexes like an int, fails `isinstance(·, int)`)
+  | nonIntPos (i : Nat)    -- a NumPy integer (indexes like an int, fails `isinstance(·, int)`); only reachable
+                           -- through a recorded `get_loc` result — the NumPy-span fallback returns `int(...)`
   | slice (a b : Nat)      -- pandas: several periods (a year in a quarterly index, duplicate labels)
   | missing                -- KeyError
   deriving DecidableEq, Repr, Inhabited
@@ -457,7 +458,7 @@ inductive Loc where
 /-- Which of `_VALID_INDEX_METHODS` applies to the span object. -/
 inductive SpanKind where
   | seq      -- list / tuple / range: `.index(label)` (first occurrence)
-  | numpy    -- ndarray: the fallback (`== label`, exactly one match)
+  | numpy    -- ndarray: the fallback (`== label`, exactly one match, returned as a Python int)
   | pandas   -- pandas Index: `.get_loc(label)` (results supplied in `Store.getLoc`)
   deriving DecidableEq, Repr, Inhabited
 
@@ -499,7 +500,7 @@ def locate (s : Store) (k : Nat) : Loc :=
     | none => .missing
   | .numpy => if countOcc s.span k = 1 then
       (match firstIdx s.span k with
-       | some i => .nonIntPos i
+       | some i => .pos i
        | none => .missing)
     else .missing
   | .pandas => (s.getLoc.lookup k).getD .missing
@@ -787,12 +788,17 @@ def setValuesCore (s : Store) (v : Operand) : Store × Outcome :=
 def setValues (s : Store) (v : Operand) (alts : List Name) : Store × Outcome :=
   if strictBlocks s "values" then (s, .raised (strictError alts))
   else
-    match setValuesCore s v with
-    | (s', .ok) => ({ s' with attrs := appendNew s'.attrs "values" }, .ok)
-    | (s', .raised e) => (s', .raised e)
+    match s.get "values" with
+    | some ser => assignWhole s "values" ser v      -- a *variable* called `values` wins over the property
+    | none =>
+      match setValuesCore s v with
+      | (s', .ok) => ({ s' with attrs := appendNew s'.attrs "values" }, .ok)
+      | (s', .raised e) => (s', .raised e)
 
 def setStrict (s : Store) (b : Bool) : Store × Outcome :=
-  ({ s with strict := b, attrs := appendNew s.attrs "strict" }, .ok)
+  match s.get "strict" with
+  | some ser => assignWhole s "strict" ser (.scalar (.b b))   -- a *variable* called `strict` wins over the property
+  | none => ({ s with strict := b, attrs := appendNew s.attrs "strict" }, .ok)
 
 /-- One public operation. -/
 def step (s : Store) : Op → Store × Outcome
